@@ -268,9 +268,11 @@ def run(R):
                  "send_pixels is not a sequence of complete word strobes (DFA states %s)" % sorted(fin))
         # ---------------- (c) repeated pixel (for the word counts per pixel that exist: N = 1, 2, 3)
         srp = C.one(F.trait_impl_method(C.IFACE, "send_repeated_pixel", self_adt=PIF), "ParallelInterface::send_repeated_pixel")
+        srp_cone = set()
         for N in (1, 2, 3):
             ex = R.executor(F)
             res = R.run_entry(ex, srp, subst={"N": {"k": "const", "val": N}})
+            srp_cone |= set(res.cone)
             tagn = "%s|send_repeated_pixel<N=%d>" % (cfg, N)
             for o in res.panics():
                 sp_ = o.info.get("span") or {}
@@ -305,24 +307,55 @@ def run(R):
                     R.ob("C07c-bare-strobes", "%s|loop-body" % tagn, okw,
                          "each iteration of the fast path must be exactly WR low, WR high with no bus update; got %s" % words[:2])
             R.floor("%s fast-path loops" % tagn, nfast, 1)
-            for o in res.returns():
-                decs = o.state.facts.decisions()
-                zero = any(repr(p) in ("-[count - 1 >= 0] + 1",) and val == 1 or repr(p) == "[count - 1 >= 0]" and val == 0 for p, val in decs)
-                if zero:
-                    evs = [e for e in TR.flatten_events(o.state.trace, res.loops) if e.kind == "call"]
-                    R.ob("C07c-zero-count-no-traffic", "%s|count=0" % tagn, not evs, "a zero repeat count produces bus traffic: %s" % evs[:2])
-        # is_same
-        isame = [b for b in F.bodies.values() if b["kind"] == "Fn" and b["id"].startswith("mipidsi::interface::parallel::")
+            # a zero repeat count produces no bus traffic at all: decided by interpreting the method under count = 0
+            # (not by looking for a particular guard in the path conditions)
+            ex0 = R.executor(F)
+            cnt0 = sym_int("count", 32, False)
+            res0 = R.run_entry(ex0, srp, subst={"N": {"k": "const", "val": N}}, assume=[ZERO - cnt0])
+            nzero = 0
+            for o in res0.outcomes:
+                nzero += 1
+                evs = [e for e in TR.flatten_events(o.state.trace, res0.loops) if e.kind == "call"]
+                R.ob("C07c-zero-count-no-traffic", "%s|count=0|%s" % (tagn, o.kind), o.kind == "return" and not evs,
+                     "with a zero repeat count the method %s" % ("drives the bus / strobes: %s" % [repr(TR.classify(e)) for e in evs[:3]] if evs else "does not return normally (%s)" % o.kind),
+                     sample={"N": N, "count": 0, "events": len(evs)})
+            R.floor("%s zero-count outcomes" % tagn, nzero, 1)
+        # the all-words-equal helper: any crate function [T; N] -> Option<T> in the cone of send_repeated_pixel
+        import re as _re
+        isame = [b for b in F.bodies.values() if b["kind"] == "Fn" and b["id"].startswith(F.crate + "::")
                  and b["body"]["locals"][0]["ty"].get("def") == OPTION and int(b["body"]["arg_count"]) == 1
-                 and b["body"]["locals"][1]["ty"].get("k") == "array"]
+                 and b["body"]["locals"][1]["ty"].get("k") == "array" and b["id"] in srp_cone]
         for rec in isame:
-            ex = R.executor(F)
-            res = R.run_entry(ex, rec)
-            for o in res.returns():
-                v = o.value
-                if isinstance(v, Agg) and v.name == OPTION and v.variant == 1:
-                    # returned Some(w): on this path no element compared unequal
-                    neq = [(repr(p), val) for p, val in o.state.facts.decisions() if "eq(" in repr(p)]
-                    ok = all((val == 1) == (not repr_p.startswith("-")) for repr_p, val in neq)
-                    R.ob("C07c-is-same-sound", "%s|%s|Some" % (cfg, rec["name"]), ok,
-                         "the all-words-equal helper returns Some(..) on a path where a word differed: %s" % neq)
+            cname = [p_["name"] for p_ in rec["generics"]["params"] if p_.get("kind") == "const"]
+            for N in (1, 2, 3):
+                ex = R.executor(F)
+                res = R.run_entry(ex, rec, subst={cname[0]: {"k": "const", "val": N}} if cname else {})
+                nsome = 0
+                for o in res.outcomes:
+                    if o.kind != "return":
+                        R.ob("C07c-is-same-sound", "%s|%s|N=%d|%s" % (cfg, rec["name"], N, o.kind), False,
+                             "the all-words-equal helper does not return normally: %s" % ({k_: v_ for k_, v_ in o.info.items() if k_ != "stack"},))
+                        continue
+                    v = o.value
+                    if not (isinstance(v, Agg) and v.name == OPTION and v.variant == 1):
+                        continue
+                    # returned Some(w): w is an element of the array and the path has established, by comparisons that
+                    # came out equal, that every element equals it (union of the decided `eq` atoms)
+                    nsome += 1
+                    w = v.fields[0]
+                    cls = {}
+
+                    def find(x):
+                        while cls.get(x, x) != x:
+                            x = cls[x]
+                        return x
+                    for a, val in o.state.facts.known.items():
+                        m_ = _re.match(r"eq\((<array\[\d+\]: \w+>),(<array\[\d+\]: \w+>)\)$", str(a[1])) if a[0] == "b" else None
+                        if m_ and val == 1:
+                            cls[find(m_.group(1))] = find(m_.group(2))
+                    elems = ["<array[%d]: %s>" % (i, repr(w).split(": ")[-1].rstrip(">")) for i in range(N)]
+                    ok = isinstance(w, SymV) and repr(w) in elems and all(find(e) == find(repr(w)) for e in elems)
+                    R.ob("C07c-is-same-sound", "%s|%s|N=%d|Some" % (cfg, rec["name"], N), ok,
+                         "the all-words-equal helper returns Some(%r) on a path that has not compared every word equal to it "
+                         "(comparisons that came out equal on this path: %s)" % (w, sorted(str(a[1]) for a, val in o.state.facts.known.items() if a[0] == "b" and val == 1)))
+                R.floor("%s|%s N=%d Some-paths" % (cfg, rec["name"], N), nsome, 1)
